@@ -100,9 +100,12 @@ func cmdRun(args []string) int {
 	fs.IntVar(&cfg.StopOnViol, "stopviol", cfg.StopOnViol, "stop after this many distinct violations")
 	fs.BoolVar(&cfg.CrossCheck, "cross", false, "cross-check assertion queries with other solvers")
 	fs.BoolVar(&cfg.DebugAborts, "debug", false, "print aborted paths")
+	fs.IntVar(&cfg.MaxSeconds, "maxtime", 0, "wall-clock budget in seconds per harness (0 = none)")
+	fs.BoolVar(&cfg.Progress, "progress", false, "print progress lines")
 	solver := fs.String("solver", "z3", "z3|z3-new|cvc5")
 	seed := fs.Int64("seed", 0, "seed")
 	gogc := fs.Int("gogc", 600, "GC percent of the engine process")
+	known := fs.String("known", "", "known findings: harness::assert::regexp separated by ;;")
 	cpuprof := fs.String("cpuprofile", "", "write CPU profile")
 	fs.Parse(args)
 	if *cpuprof != "" {
@@ -111,6 +114,17 @@ func cmdRun(args []string) int {
 		defer pprof.StopCPUProfile()
 	}
 	debug.SetGCPercent(*gogc)
+	for _, k := range strings.Split(*known, ";;") {
+		parts := strings.SplitN(k, "::", 3)
+		if len(parts) != 3 {
+			continue
+		}
+		kp := symx.KnownPattern{Harness: parts[0], Assert: parts[1]}
+		if parts[2] != "" {
+			kp.Re = regexp.MustCompile(parts[2])
+		}
+		cfg.Known = append(cfg.Known, kp)
+	}
 	cfg.Solver = symx.SolverKind(*solver)
 	cfg.Seed = *seed
 	if *tier == "thorough" {
